@@ -9,7 +9,12 @@ def run(chk):
                 "(CreateDisclosureProofBuilder + BuildProofList) is run on alternating 1024-bit keys for disclosure and signature sessions; the harness "
                 "checks verification (ProofD.Verify and ProofList.Verify), that a_disclosed/a_responses are exactly the chosen set / its complement with "
                 "true values, that neither the serialised proof nor the timestamp contribution contains a hidden value (byte search for values >= 64 bits; "
-                "zero entries for hidden indices), and that the proof does not verify for the other session kind. Non-trivial = distinct (credential, set, session kind).")
+                "zero entries for hidden indices), and that the proof does not verify for the other session kind. "
+                "Plus Builder.tla: the DisclosureProofBuilder life cycle as the caller sees it - the list of indices in ANY order and with repetitions (all lists of "
+                "<= 3 (quick) / 4 (thorough) indices), TimestampRequestContributions asked for before the commitment, between commitment and proof, and after the proof "
+                "(every placement); invariants Minimal, Exact, action property TRCStable. Replay: every complete life cycle is driven through the real builder "
+                "(CreateDisclosureProofBuilder, ProofBuilderList.Challenge, BuildDistributedProofList) for both session kinds, with the same demands after every "
+                "call. Non-trivial = distinct (credential, set, session kind) / (list, call sequence, session kind).")
     chk.assumptions = ["statistical hiding of responses is not modelled (only syntactic absence of hidden values)",
                        "1024-bit fixed keys; credentials are minted with SignMessageBlock by the harness"]
     cfg = "Disclosure.honest.%s.cfg" % T
@@ -22,6 +27,21 @@ def run(chk):
     open(cp, "w").write("\n".join(cases) + "\n")
     res = vplib.vh("disc", ["honest", "--in", cp, "--tier", T, "--seed", str(chk.seed)], timeout=3000)
     chk.add_replay(res, "library_prover")
+    # the builder's life cycle as the caller sees it (Builder.tla)
+    r = vplib.tlc_mc("Builder", "Builder.mc.cfg", timeout=300)
+    chk.add_tlc(r, "Builder", "Builder.mc.cfg", "Minimal, Exact, TRCStable over every list of <= 4 indices and every placement of the timestamp contribution")
+    gen = "Builder.gen.%s.cfg" % T
+    g = vplib.tlc_mc("BuilderGen", gen, workers=1, timeout=600)
+    bc = sorted(set(g.tagged_raw_json("B")))
+    chk.add_tlc(g, "BuilderGen", gen, "%d complete builder life cycles" % len(bc))
+    if len(bc) < 300:
+        raise vplib.Machinery("only %d builder life cycles" % len(bc))
+    bp = os.path.join(vplib.sub("c04"), "builder.ndjson")
+    open(bp, "w").write("\n".join(bc) + "\n")
+    res = vplib.vh("disc", ["builder", "--in", bp, "--tier", T, "--seed", str(chk.seed)], timeout=3000)
+    if res["evaluations"] != 2 * len(bc):
+        raise vplib.Machinery("builder replay: %d of %d" % (res["evaluations"], 2 * len(bc)))
+    chk.add_replay(res, "builder_life_cycles")
     chk.exhaustive = True
 
 def replay(chk, path):
